@@ -148,18 +148,76 @@ def analyse_unwind(mir):
     return out
 
 
+def strip_cast(v):
+    while v is not None and v[0] == "op" and v[1].startswith("cast:"):
+        v = v[2][0]
+    return v
+
+
+def analyse_bind(mir):
+    """MachineState::bind / bind_attr_var: every store into heap[i] / stack[i] is followed, on the
+    same path, by trail(TrailRef::Ref(r)) where r names the same cell (same index, same kind)."""
+    out = []
+    for fn in ("bind", "bind_attr_var"):
+        name = mir.find(r"machine_state_impl::.*::%s$" % fn)
+        if len(name) != 1:
+            raise core.Unsupported("%s: %s" % (fn, name))
+        body = mir.body(name[0])
+        paths = core.Executor(body, max_depth=300).run("bb0")
+        nstores = 0
+        bad = []
+        for p in paths:
+            if p.end != "return":
+                continue
+            evs = p.events
+            for i, e in enumerate(evs):
+                if not (e[0] == "call" and e[1].endswith("IndexMut<usize>>::index_mut")):
+                    continue
+                # the write through the returned reference
+                wr = [x for x in evs[i + 1:i + 3] if x[0] == "store"]
+                if not wr:
+                    continue
+                nstores += 1
+                container = "stack" if "Stack" in e[1] else "heap"
+                idx = strip_cast(e[2][1])
+                tr = [x for x in evs[i + 1:] if x[0] == "call" and x[1].endswith("::trail")]
+                ok = False
+                for t in tr:
+                    a = t[2][1]
+                    if not (a[0] == "agg" and a[1].endswith("TrailRef::Ref") and a[2]):
+                        continue
+                    r = a[2][0]
+                    if r[0] == "app" and re.search(r"Ref::(heap_cell|stack_cell|attr_var)$", r[1]):
+                        kind = r[1].split("::")[-1]
+                        same_idx = strip_cast(r[2][0]) == idx
+                        kind_ok = (kind == "stack_cell") == (container == "stack")
+                        ok = ok or (same_idx and kind_ok)
+                    elif r == ("s", "_2"):
+                        # trail(Ref(r1)) after writing cell r1.get_value(): index must derive from r1
+                        ra = util.root_app(idx)
+                        ok = ok or bool(ra and ra[1].endswith("Ref::get_value") and ra[2][0] == ("s", "_2"))
+                if not ok:
+                    bad.append("%s: store into %s[%s] not followed by a matching trail" % (
+                        fn, container, util.term_str(idx)))
+        out.append({"fn": fn, "stores": nstores, "bad": bad})
+    return out
+
+
 def run(thorough=False):
     try:
         mir, secs, cached = util.get()
         queries, meta = analyse_trail(mir)
         unwind = analyse_unwind(mir)
+        binds = analyse_bind(mir)
     except Exception as e:  # noqa
         log("  mirsmt C11: cannot analyse (%s)" % e)
         return {"exit": EXIT_INCONCLUSIVE, "mirsmt_error": str(e)}
     br = smt.check_batch(queries, thorough=thorough)
-    res = {"evaluations": len(queries) + len(unwind), "distinct_nontrivial": 0, "samples": [],
+    res = {"evaluations": len(queries) + len(unwind) + len(binds), "distinct_nontrivial": 0,
+           "samples": [],
            "mirsmt_regions": ["MachineState::trail (TrailRef::Ref arms)",
-                              "Machine::unwind_trail (TrailedHeapVar/StackVar/AttrVar arms)"],
+                              "Machine::unwind_trail (TrailedHeapVar/StackVar/AttrVar arms)",
+                              "MachineState::bind, MachineState::bind_attr_var (store -> trail)"],
            "mirsmt_seconds": br["z3_s"],
            "mirsmt_assumptions": ["hb / b hold the heap top / choice point of the newest choice "
                                   "point (their maintenance is outside)",
@@ -182,8 +240,17 @@ def run(thorough=False):
             viol.append({"site": "unwind_trail", **u})
         res["samples"].append({"query": "unwind_trail %s resets cell h to %s(h)" % (u["entry"], u["resets_to"]),
                                "answer": "holds" if u["ok"] else "fails"})
-    log("  mirsmt C11: %d trail guards + %d unwind arms, %d hold, %d violations (z3 %.2fs)" % (
-        len(queries), len(unwind), res["distinct_nontrivial"], len(viol), br["z3_s"]))
+    for bnd in binds:
+        good = bnd["stores"] > 0 and not bnd["bad"]
+        res["distinct_nontrivial"] += good
+        if not good:
+            viol.append({"site": bnd["fn"], "stores": bnd["stores"], "problems": bnd["bad"]})
+        res["samples"].append({"query": "%s: each of %d cell stores is followed by trail() of the "
+                               "same cell" % (bnd["fn"], bnd["stores"]),
+                               "answer": "holds" if good else "fails"})
+    log("  mirsmt C11: %d trail guards + %d unwind arms + %d bind fns, %d hold, %d violations "
+        "(z3 %.2fs)" % (len(queries), len(unwind), len(binds), res["distinct_nontrivial"],
+                        len(viol), br["z3_s"]))
     if viol:
         res["mirsmt_violations"] = viol
         from .. import prolog
